@@ -3,6 +3,27 @@
 import json, sys
 BASE_OFF = "cd /repo && go test -mod=mod -json -vet=off -count=1 -timeout 25m ./..."
 checks = {
+ "C01": dict(cat="model_checking", design="§4 C01",
+   text="Ledger.tla (balances, supplies, in-flight sends, inboxes; one action per block kind) is checked exhaustively by TLC for Conservation/NonNegative/SupplyOnlyByTokenContract on small constants; every account block and momentum of real executions (the repository's contract tests run unedited under the verif hooks, and seeded lab walks mixing transfers, receives, valid/failing/repeated contract calls, mint/burn/issue/update) is validated by TLC against LedgerTrace.tla with BigNat arithmetic: the logged post-balances and token records must equal what the specification computes, Conservation is evaluated over all accounts at every event, genesis included.",
+   note="covers the executions recorded; per-method contract effects are constrained by the conservation shape (credit, descendant sends, token-contract supply delta), not re-derived per method",
+   technique="TLA+ spec Ledger.tla + TLC; trace validation (LedgerTrace.tla, BigNat) of hook-recorded executions of the real node"),
+ "C04": dict(cat="model_checking", design="§4 C04",
+   text="AtMostOnce, OnlyAddressee and strict FIFO are invariants / guards of Ledger.tla checked exhaustively over all confirmation orders (negative controls: legacy mismatch receive, relaxed FIFO guard are refuted); real executions (repository tests under hooks, lab walks with second receives, receives by strangers) are validated event by event: a receive is accepted by the specification only for a confirmed, unreceived send addressed to the receiver, a contract receive only for the head of the contract's inbox in confirmation order.",
+   note="reorganisation cases are decided by the Sync checks; the legacy regime below the enforcement height is a recorded finding",
+   technique="TLA+ spec Ledger.tla + TLC; trace validation of hook-recorded executions"),
+ "C09": dict(cat="model_checking", design="§4 C09",
+   text="In Ledger.tla a contract receive has exactly two shapes, apply or refund-exactly; trace validation requires every contract receive produced by the real pillar path to match one of them (failed status => exact refund of amount/token to the sender and untouched storage; conservation of the contract's balances otherwise), every inbox to drain after the walk, and the producer to report no internal error. Calls come from repository tests, seeded walks (valid, failing, repeated, by strangers, foreign amounts) and the Locks behaviours.",
+   note="argument encodings are sampled inside classes; methods reached are listed in the evidence",
+   technique="TLA+ spec Ledger.tla + TLC; trace validation of the producer path"),
+ "C10": dict(cat="model_checking", design="§4 C10",
+   text="Locks.tla states the release rules (only the depositor after maturity; HTLC: beneficiary with the right preimage before expiry, proxy unlock allowed/denied; never twice) and TLC checks NotTwice/ReleasedOnlyTo; its complete edge cover (one entry) plus simulated two-entry behaviours are replayed on a real producer for fusions, stakes and hash-time-locks, comparing paid/refused, payee and amount of every attempt with the prediction. Backed (contract balance >= sum of recorded liabilities, read with the repository's definition readers) is evaluated by TLC at every momentum of all validated traces.",
+   note="time boundaries are replayed at +-1 abstract unit (10 momentums); pillar/sentinel collateral and QSR deposits are covered by Backed and the walks, not by Locks",
+   technique="TLA+ specs Locks.tla / LedgerTrace.tla + TLC; replay of TLC-generated behaviours on a real node; trace validation"),
+ "C11": dict(cat="model_checking", design="§4 C11",
+   text="RewardStep in LedgerTrace.tla: between two observations of a reward contract the epoch cursor only advances, no epoch beyond it is credited, an epoch already passed keeps exactly its credit (paid once), credit per epoch never exceeds the emission constant of the contract (liquidity: plus the administrator-configured additional reward), and minted rewards obey Conservation; evaluated on traces of the repository's reward tests and of lab walks spanning several short epochs with automatic and user-triggered updates and collects.",
+   note="pillar cap uses the epoch's number of momentum slots; not applied to traced repository tests that change MomentumsPerEpoch; node-independence of rewards is decided by the C02 follower comparison",
+   technique="TLA+ spec LedgerTrace.tla + TLC trace validation"),
+
  "C07": dict(cat="model_checking", design="§4 C07",
    text="TLC checks ViewAsOf/FreshViewRight/DiskIsFrontier/PatchesMatch/ParentRule exhaustively on VStore.tla (all commit/pop/open-view/restart histories up to height 3 over five patches incl. delete, re-create, empty value); every transition of the height-2 state graph is replayed on the real ldbManager and memdbManager (reads, existence, prefix scans, redo patches, raw key space) with the specification's predicted state as oracle; negative-control configurations show TLC refuting each invariant for the code as it was found.",
    note="keys/values are model values in TLC, byte-level cases come from four key concretisations; histories beyond the bound only through the thorough tier's larger configuration",
